@@ -147,6 +147,8 @@ def correspondence(rep, rng, tier):
             rep.add_failure(r[0], r[1], {'section': 'positions', 'decoder': n, 'case': r[2]})
     sec['dist'] = {'syscall_decoders': len(names), 'shaped_total': shaped}
     _matching(rep, rng, tier)
+    from .. import tsorder
+    tsorder.section(rep, rng, tier, 'C09')
 
 
 def _matching(rep, rng, tier):
@@ -169,6 +171,13 @@ def replay(path):
         rc = P.replay_search(rp, 'C09', path)
         if rc is not None:
             return rc
+    if rp.get('section') == 'timestamp-order':
+        from .. import tsorder
+        bad, lines = tsorder.replay(rp)
+        print('\n'.join(lines))
+        if bad:
+            print(f'VIOLATION property=C09 replay={path}')
+        return 1 if bad else 0
     if rp.get('section') == 'positions':
         res = position_oracle(rp['decoder'])
         print('oracle:', res)
